@@ -42,6 +42,8 @@ pub fn replay(o: &Opts) {
     let mut reference: HashMap<u16, SourceBlockEncoder> = HashMap::new();
     let mut n = 0;
     let mut bad = 0;
+    let mut stalled = 0;
+    let mut skipped = false;
     for line in input.lines() {
         let line = line.unwrap();
         if line.trim().is_empty() {
@@ -161,9 +163,21 @@ pub fn replay(o: &Opts) {
             bad += 1;
             let mut all = prop.clone();
             all.extend(mism.iter().cloned());
+            let timed_out = g.deviation.is_some();
             out.emit(json!({"case": c, "got": {"log": g.log.iter().map(|l| json!([l.0, kind_name(l.1), l.2, l.3.fifo.len()])).collect::<Vec<_>>()},
                             "mismatch": all, "property_level": prop, "model_level": mism}));
+            // every schedule that cannot be forced costs its time-out: after a few of them the rest adds nothing
+            if timed_out {
+                stalled += 1;
+                if stalled >= 12 {
+                    skipped = true;
+                    break;
+                }
+            }
         }
+    }
+    if skipped {
+        println!("stopped after {stalled} schedules that could not be forced (time-outs)");
     }
     out.finish();
     println!("cases={n} mismatches={bad}");
@@ -189,15 +203,36 @@ pub fn log(o: &Opts) {
         })),
     );
     let cfg = Oti::new(0, 1, 0, 1, 1);
+    // --collide: sizes that a lossy cache key would confuse - block sizes sharing the systematic index J (Table 2 has
+    // rows with equal J), sharing K' (different padding), or differing by a multiple of 256; few enough to stay cached together
+    let collide: Arc<Vec<u16>> = Arc::new(if o.flag("collide") {
+        let rows: Vec<(u32, u32)> = raptorq::verif::SYSTEMATIC_INDICES_AND_PARAMETERS.iter().map(|r| (r.0, r.1)).filter(|r| r.0 <= 700).collect();
+        let mut v: Vec<u16> = vec![];
+        for (i, a) in rows.iter().enumerate() {
+            for b in rows.iter().skip(i + 1) {
+                if a.1 == b.1 && v.len() < 24 {
+                    v.extend([a.0 as u16, a.0 as u16 - 1, b.0 as u16, b.0 as u16 - 1]);
+                }
+            }
+        }
+        v.extend([51, 52, 53, 54, 55, 370, 371, 372, 3, 259, 10, 266, 311, 567]);
+        v.sort();
+        v.dedup();
+        v
+    } else {
+        vec![]
+    });
     std::thread::scope(|s| {
         for i in 0..threads {
             let ev = events.clone();
+            let collide = collide.clone();
             s.spawn(move || {
                 TID.with(|t| t.set(i as u32 + 1));
                 let mut g = crate::scn::Lcg(seed ^ (i as u64 * 7919));
                 for r in 0..reqs {
                     // a mix: a few hot sizes shared by all threads, and a long tail that overflows the capacity
-                    let k = if r % 3 == 0 { 1 + (g.next() % 6) as u16 } else { 1 + (g.next() % sizes) as u16 };
+                    let k = if !collide.is_empty() { collide[(g.next() % collide.len() as u64) as usize] }
+                            else if r % 3 == 0 { 1 + (g.next() % 6) as u16 } else { 1 + (g.next() % sizes) as u16 };
                     let enc = SourceBlockEncoder::new(0, &cfg, &block_data(k));
                     let reference = SourceBlockEncoder::with_encoding_plan(0, &cfg, &block_data(k), &SourceBlockEncodingPlan::generate(k));
                     ev.lock().unwrap().push(json!({"ev":"ret","t":i as u32 + 1,"key":k,"same": enc == reference}));
